@@ -11,7 +11,9 @@ TITLE = "semi-supervised training extends the forest"
 RULE = ("every weighted complete graph on n_l + n_u nodes (n_l in 2..4 labeled, n_u in 0..2 "
         "unlabeled, weights over an ordered alphabet of 2-3 values incl. zero; all weak edge "
         "orderings for 4 nodes) x every labeling of the labeled part with >=2 classes, as a "
-        "pre-computed matrix, plus lattice point sequences under named metrics; oracle = "
+        "pre-computed matrix, plus lattice point sequences under named metrics, plus API combinations "
+        "(int64 labeled matrix with fractional unlabeled samples; an index array of dataset positions "
+        "without pre-computed distances); oracle = "
         "minimax path costs on the FULL graph from prototypes that must be a labeled-MST "
         "boundary set, every sample conquered once, labels = true label of the root; with "
         "n_u = 0 the state must be identical to SupervisedOPF on the same input; non-trivial "
@@ -49,10 +51,18 @@ def plan(tier, seed):
     for mt in METRICS[tier]:
         for a, b in E.chunks(E.n_sequences(9, 4), 500):
             shards.append(("feat", 3, 1, mt, a, b))
+    # API combinations: integer-typed labeled matrix with fractional unlabeled samples, and an
+    # index array (dataset positions, colliding with the ids given to unlabeled samples) without
+    # pre-computed distances
+    for a, b in E.chunks(E.n_sequences(4, 5), 128):
+        shards.append(("api", 3, 2, "euclidean", a, b))
     return shards
 
 
-warm = c01.warm
+def warm():
+    c01.warm()
+    from mc.warm import warm_dtypes
+    warm_dtypes(["euclidean"])
 
 
 def programs(shard, seed):
@@ -75,6 +85,20 @@ def programs(shard, seed):
             for lab in E.labelings(nl):
                 yield {"model": "SemiSupervisedOPF", "mode": "pre", "W": W,
                        "labels": list(E.rename_classes(lab, seed)), "n_unlabeled": nu}
+    elif kind == "api":
+        _, nl, nu, metric, a, b = shard
+        base = [(0.0,), (1.0,), (2.0,), (3.0,)]
+        frac = [(0.5,), (1.5,), (2.5,), (3.9,)]
+        for si in range(a, b):
+            seq = E.sequence_at(4, nl + nu, si)
+            X = [list(base[i]) for i in seq[:nl]] + [list(frac[i]) for i in seq[nl:]]
+            for lab in E.labelings(nl):
+                for variant in ({"labeled_dtype": "int64"}, {"I_train": [0, nl + 1, nl][:nl]},
+                                {"labeled_dtype": "int64", "I_train": [nl, 0, nl + 1][:nl]}):
+                    p = {"model": "SemiSupervisedOPF", "mode": "features", "X": X, "metric": metric,
+                         "labels": list(E.rename_classes(lab, seed)), "n_unlabeled": nu}
+                    p.update(variant)
+                    yield p
     else:
         _, nl, nu, metric, a, b = shard
         pts = E.lattice("2d", seed)
@@ -179,7 +203,7 @@ def run(shard, seed):
             res.sample(prog, 1)
         k += 1
         if v:
-            prev = _PREV.get(_key(prog))
+            prev = _PREV.get(_key(prog)) if _key(prog) is not None else None
             if prev is not None and "previous" not in v["program"]:
                 v["program"] = dict(v["program"], previous=prev)
             res.violations.append(v)
